@@ -281,7 +281,13 @@ def worker(ctx):
         if ctx.replay is not None:
             case_id = ctx.replay["witness"]["case"]
             rng = __import__("random").Random(f"{ctx.replay['seed']}:C10:{ctx.replay['witness']['shard']}:case:{case_id}")
-        root = gen.gen_schema(rng, cfg_for(rng, case_id))
+        cfg = cfg_for(rng, case_id)
+        if case_id % 4 == 2:
+            cfg.p_same_short_name = 0.6
+        root = gen.gen_schema(rng, cfg)
+        if case_id % 6 == 1:
+            gen.add_same_name_shapes(root, rng, ext_ok=cfg.extensible)
+            res.count("feature:same_short_name_under_two_messages")
         if case_id % 5 == 0:
             add_collision_pattern(root, rng)
         if case_id % 7 == 1:
